@@ -235,8 +235,10 @@ def base_cases(tier):
     for c in hs:
         out.append(c)
     for topo in c10.TOPOS:
-        for pt, dev in enum.deviations([d for d in c10.dims(topo) if d[0] not in ("numba", "ambient", "mode")] +
-                                       [("start", ["consistent", "mismatch"])], 1):
+        npipes = len(c10.TOPOS[topo]["pipes"])
+        tdims = [((d[0], [2, 1, 3]) if d[0].startswith("sec") else d) for d in c10.dims(topo) if d[0] not in ("numba", "ambient", "mode")]
+        tdims += [("oos%d" % i, [False, True]) for i in range(npipes)]
+        for pt, dev in enum.deviations(tdims + [("start", ["consistent", "mismatch"])], 1):
             pt = dict(pt, mode="sequential", numba=False, ambient=293.15)
             out.append({"scope": "T", "topo": topo, "point": pt})
     return out
@@ -249,6 +251,9 @@ def base_spec(c):
         return sp, opts
     sp, opts = c10.topo_spec(c)
     sp["_mode"] = "sequential"
+    for o in sp["ops"]:
+        if o["op"] == "pipe" and c["point"].get("oos" + o["id"][1:], False):
+            o["in_service"] = False
     if c["point"].get("start", "consistent") == "consistent":
         # the start temperature of a feeder junction equals its feed temperature (consistent description)
         feeds = {o["junction"]: o["t_k"] for o in sp["ops"] if o["op"] == "ext_grid"}
